@@ -298,3 +298,36 @@ impl RefTraversal {
         }
     }
 }
+
+/// Grows the tree (and the model) by `n` nodes at pseudo-randomly chosen free slots (deterministic in `seed`).
+/// Used for the rare "large arena" cases: more than 1024 stored nodes, where size-gated fast paths live.
+pub fn bulk_grow<N, const K: usize>(t: &mut affinitree::tree::graph::Tree<N, K>, m: &mut Model, n: usize, seed: u64, mk: &dyn Fn(i64) -> N) {
+    let mut frontier: Vec<usize> = m.nodes.iter().filter(|(_, nd)| nd.children.iter().any(|c| c.is_none())).map(|(i, _)| *i).collect();
+    let mut s = seed.wrapping_mul(0x9E37_79B9_7F4A_7C15) | 1;
+    let mut next = || {
+        s ^= s << 13;
+        s ^= s >> 7;
+        s ^= s << 17;
+        s
+    };
+    for i in 0..n {
+        if frontier.is_empty() {
+            break;
+        }
+        let r = (next() % frontier.len() as u64) as usize;
+        let p = frontier[r];
+        let free: Vec<usize> = (0..K).filter(|l| m.nodes[&p].children[*l].is_none()).collect();
+        let l = free[(next() % free.len() as u64) as usize];
+        let v = 1000 + i as i64;
+        match crate::runner::guard(|| t.add_child_node(p, l, mk(v))) {
+            Ok(Ok(idx)) => {
+                m.add(p, l, idx, v);
+                frontier.push(idx);
+                if free.len() == 1 {
+                    frontier.swap_remove(r);
+                }
+            }
+            _ => break,
+        }
+    }
+}
